@@ -203,3 +203,52 @@ func Verif_C17_lru() {
 	}
 	verifReach("lru-done")
 }
+
+// H17c: two concurrent Take callers of one uncached key: the second arrives
+// while the first's fetch is in progress. The fetch runs at most once, both get
+// its result, and it is cached only on success.
+func Verif_C17_take2() {
+	verifExactTTL = true
+	cache, err := NewCache(time.Minute)
+	verifAssert(err == nil, "cache is created")
+	fails := verifChoose("fetchFails", 2) == 1
+	calls := 0
+	release := make(chan struct{})
+	fetch := func() (any, error) {
+		calls++
+		<-release // held until the second caller has arrived
+		if fails {
+			return nil, verifErrFetch
+		}
+		return 42, nil
+	}
+	var v1, v2 any
+	var e1, e2 error
+	done := make(chan struct{}, 2)
+	go func() { v1, e1 = cache.Take("k", fetch); done <- struct{}{} }()
+	verifYield()
+	go func() { v2, e2 = cache.Take("k", fetch); done <- struct{}{} }()
+	verifYield() // the second caller is now waiting on the first's flight
+	close(release)
+	<-done
+	<-done
+	verifYield()
+	verifAssert(calls == 1, "concurrent Take callers of one key run the fetch at most once")
+	if fails {
+		verifAssert(e1 == verifErrFetch && e2 == verifErrFetch, "both callers get the fetch error")
+		_, ok := cache.Get("k")
+		verifAssert(!ok, "a failed fetch is not cached")
+	} else {
+		verifAssert(e1 == nil && e2 == nil && v1 == 42 && v2 == 42, "both callers get the fetched value")
+		v, ok := cache.Get("k")
+		verifAssert(ok && v == 42, "a successful fetch is cached")
+	}
+	// a later Take executes afresh only if nothing is cached
+	_, e3 := cache.Take("k", fetch)
+	if fails {
+		verifAssert(calls == 2 && e3 == verifErrFetch, "after a failed fetch a later Take fetches again")
+	} else {
+		verifAssert(calls == 1 && e3 == nil, "after a successful fetch a later Take is served from the cache")
+	}
+	verifReach("take2")
+}
